@@ -40,7 +40,7 @@ vars == <<inst, round, params, sstate, pending, cur, cparams, cstate, pos, acc, 
 (* inst == [ data    : client -> sequence of examples, each a sequence (one integer per leaf)
              stream  : client -> sequence of batches, each a sequence of example indices (1-based)
              init    : sequence of rationals (one per leaf)
-             copt    : [kind |-> "sgd" | "mom", lr |-> rational, beta |-> rational]
+             copt    : [kind |-> "sgd" | "mom" | "nes", lr |-> rational, beta |-> rational]
              sopt    : same
              mu      : rational (FedProx weight, <<0,1>> for FedAvg)
              reg     : rational lambda: an L2 regulariser lambda/2 |w|^2 added to the loss (gradient lambda w); zero if none
@@ -69,9 +69,12 @@ Start == /\ round = 1 /\ params = inst.init /\ sstate = VZero
 Init == inst \in Instances /\ Start
 
 \* an optimizer step: returns [p |-> new params, s |-> new state]
+\* kinds: "sgd"; "mom" (heavy ball: t = g + beta s, step along t); "nes" (Nesterov: same trace, step along g + beta t)
 OptApply(opt, g, s, p) ==
   IF opt.kind = "sgd" THEN [p |-> VSub(p, VScale(g, opt.lr)), s |-> s]
-  ELSE LET t == VAdd(g, VScale(s, opt.beta)) IN [p |-> VSub(p, VScale(t, opt.lr)), s |-> t]
+  ELSE LET t == VAdd(g, VScale(s, opt.beta))
+           dir == IF opt.kind = "nes" THEN VAdd(g, VScale(t, opt.beta)) ELSE t
+       IN [p |-> VSub(p, VScale(dir, opt.lr)), s |-> t]
 
 \* mean over the batch of (w - x), leaf by leaf, plus the key-dependent term of step i, plus the proximal term
 \* mu (w - w_round).  Deviation ~AdvanceKey: the client's key is not advanced, every step draws with the first key.
